@@ -5,6 +5,7 @@ import (
 	"fmt"
 	"os"
 	"os/signal"
+	"sort"
 	"strconv"
 	"strings"
 	"syscall"
@@ -149,6 +150,69 @@ func TestSim(t *testing.T) {
 				res.Decoded = nil
 			}
 			writeJSONLine(out, res)
+		}
+		writeJSONLine(out, map[string]any{"done": true})
+	case "sweep":
+		// crash sweep: for successive seeds, learn the number of file-system operations of each
+		// build invocation of a fault-free history, then replay the same history once per
+		// operation index with the invocation killed exactly there.
+		world := os.Getenv("SIM_WORLD")
+		base := uint64(envInt("SIM_SEED", 1))
+		from := uint64(envInt("SIM_FROM", 0))
+		stride := uint64(envInt("SIM_STRIDE", 1))
+		deadline := envInt("SIM_DEADLINE_UNIX", 0)
+		maxSeeds := envInt("SIM_COUNT", 1000000)
+		for k := int64(0); k < maxSeeds; k++ {
+			if deadline > 0 && time.Now().Unix() >= deadline {
+				break
+			}
+			seed := RunSeed(base, from+uint64(k)*stride)
+			p0 := map[string]string{}
+			for kk, v := range params {
+				p0[kk] = v
+			}
+			p0["mode"], p0["focus"] = "faults", "sweep"
+			writeJSONLine(out, map[string]any{"begin": seed, "index": k})
+			probe := RunOne(t, worldFactory(world, p0), simrt.NewChoices(seed), Options{World: world, Params: p0})
+			probe.Seed = seed
+			probe.Sweep = "probe"
+			if len(probe.Violations) > 0 {
+				probe.Choices = nil
+			}
+			writeJSONLine(out, probe)
+			// sweep at most two invocations of this history (the longest ones)
+			type iv struct{ inv, ops int }
+			var ivs []iv
+			for i, n := range probe.OpsPerInv {
+				ivs = append(ivs, iv{i + 1, n})
+			}
+			sort.Slice(ivs, func(a, b int) bool { return ivs[a].ops > ivs[b].ops })
+			if len(ivs) > 2 {
+				ivs = ivs[:2]
+			}
+			for _, x := range ivs {
+				for op := 1; op <= x.ops; op++ {
+					if deadline > 0 && time.Now().Unix() >= deadline+120 {
+						break
+					}
+					p1 := map[string]string{}
+					for kk, v := range p0 {
+						p1[kk] = v
+					}
+					p1["sweep_inv"], p1["sweep_op"] = strconv.Itoa(x.inv), strconv.Itoa(op)
+					writeJSONLine(out, map[string]any{"begin": seed, "index": k, "sweep": fmt.Sprintf("%d:%d", x.inv, op)})
+					c := simrt.NewChoices(seed)
+					res := RunOne(t, worldFactory(world, p1), c, Options{World: world, Params: p1})
+					res.Seed = seed
+					res.Sweep = fmt.Sprintf("inv=%d,op=%d/%d", x.inv, op, x.ops)
+					res.Decoded = nil
+					if len(res.Violations) > 0 {
+						res.Choices = c.Rec
+						res.Decoded = map[string]any{"sweep_inv": x.inv, "sweep_op": op}
+					}
+					writeJSONLine(out, res)
+				}
+			}
 		}
 		writeJSONLine(out, map[string]any{"done": true})
 	case "one":
